@@ -81,7 +81,7 @@ VerifyOut(S) ==
         co |-> {f \in FKs : (\E e \in MissIdx(S) : e[1] = f) /\ (\E e \in S.idx : e[1] = f)}]     \* IndexDiff.Corrupt()
 
 \* what the driver reads back after every step (besides the two buckets themselves)
-Obs(S) == [w |-> {<<f, WalkOut(S, f).err, WalkOut(S, f).vis>> : f \in FKs}, v |-> VerifyOut(S)]
+Obs(S) == [w |-> UNION {{<<f, w.err, w.vis>> : w \in {WalkOut(S, f)}} : f \in FKs}, v |-> VerifyOut(S)]
 
 \* ---------------------------------------------------------------- writers
 R(S, err, n, vis) == [st |-> S, err |-> err, n |-> n, vis |-> vis]
@@ -135,7 +135,7 @@ Apply(S, op, at) ==
     [] op.a = "up"     -> DoUp(S, op)
     [] op.a = "down"   -> DoDown(S)
     [] op.a = "enable" -> R([S EXCEPT !.rd = TRUE], "ok", 0, {})
-    [] op.a = "walk"   -> R(S, WalkOut(S, op.fk).err, Cardinality(WalkOut(S, op.fk).vis), WalkOut(S, op.fk).vis)
+    [] op.a = "walk"   -> LET w == WalkOut(S, op.fk) IN R(S, w.err, Cardinality(w.vis), w.vis)
     [] op.a = "verify" -> R(S, VerifyOut(S).err, 0, {})
 
 \* ---------------------------------------------------------------- operations
@@ -236,10 +236,10 @@ Rec(op, r) == [op |-> op, err |-> r.err, n |-> r.n, vis |-> r.vis, st |-> r.st, 
 \* covered by Inv_Outcomes / by the probes); simulation (NoOpSteps) also takes refused and idle operations.
 Step(op) ==
   /\ leaf = <<>> /\ nops < MaxOps /\ Allowed(Cur, op)
-  /\ LET r == Apply(Cur, op, Atomic)
-     IN /\ (NoOpSteps \/ r.st # Cur \/ NextLvl(Cur, op, r) # lvl)
+  /\ \E S \in {Cur} : \E r \in {Apply(S, op, Atomic)} : \E l \in {NextLvl(S, op, r)} :     \* (bound by quantifiers: TLC does not cache LET definitions)
+        /\ (NoOpSteps \/ r.st # S \/ l # lvl)
         /\ src' = r.st.src /\ idx' = r.st.idx /\ mig' = r.st.mig /\ rd' = r.st.rd
-        /\ lvl' = NextLvl(Cur, op, r)
+        /\ lvl' = l
         /\ hist' = IF Record THEN Append(hist, Rec(op, r)) ELSE hist
   /\ nops' = nops + 1
   /\ UNCHANGED leaf
@@ -248,26 +248,26 @@ Step(op) ==
 \* the store kind of the configuration (Atomic); alt is the state the OTHER store kind is left in, when that differs.
 Probe(op) ==
   /\ Probing /\ leaf = <<>> /\ Allowed(Cur, op)
-  /\ LET r  == Apply(Cur, op, Atomic)
-         q  == Apply(Cur, op, ~Atomic)
-     IN leaf' = <<[op |-> op, err |-> r.err, n |-> r.n, vis |-> r.vis, st |-> r.st, obs |-> Obs(r.st),
+  /\ \E S \in {Cur} : \E r \in {Apply(S, op, Atomic)} : \E q \in {Apply(S, op, ~Atomic)} :
+        leaf' = <<[op |-> op, err |-> r.err, n |-> r.n, vis |-> r.vis, st |-> r.st, obs |-> Obs(r.st),
                    alt |-> IF q.st = r.st THEN <<>> ELSE <<q.st, Obs(q.st)>>]>>
   /\ hist' = <<>>
   /\ UNCHANGED <<src, idx, mig, rd, lvl, nops>>
 
-Put     == \E op \in OpsPut : Step(op)
-Del     == \E op \in OpsDel : Step(op)
-Ins     == \E op \in OpsIns : Step(op)
-Rem     == \E op \in OpsRem : Step(op)
-Pop     == \E op \in OpsPop : Step(op)
-Up      == \E op \in OpsUp : Step(op)
-Down    == \E op \in OpsDown : Step(op)
-Enable  == \E op \in OpsEnable : Step(op)
-Walk    == \E op \in OpsWalk : Step(op)
-Verify  == \E op \in OpsVerify : Step(op)
-Probes  == \E op \in Ops : Probe(op)
+Put     == leaf = <<>> /\ \E op \in OpsPut : Step(op)
+Del     == leaf = <<>> /\ \E op \in OpsDel : Step(op)
+Ins     == leaf = <<>> /\ \E op \in OpsIns : Step(op)
+Rem     == leaf = <<>> /\ \E op \in OpsRem : Step(op)
+Pop     == leaf = <<>> /\ \E op \in OpsPop : Step(op)
+Up      == leaf = <<>> /\ \E op \in OpsUp : Step(op)
+Down    == leaf = <<>> /\ \E op \in OpsDown : Step(op)
+Enable  == leaf = <<>> /\ \E op \in OpsEnable : Step(op)
+Walk    == leaf = <<>> /\ \E op \in OpsWalk : Step(op)
+Verify  == leaf = <<>> /\ \E op \in OpsVerify : Step(op)
+Probes  == leaf = <<>> /\ \E op \in Ops : Probe(op)
 
-Next == leaf = <<>> /\ (Put \/ Del \/ Ins \/ Rem \/ Pop \/ Up \/ Down \/ Enable \/ Walk \/ Verify \/ Probes)
+\* (a probe state has no successors; every action says so first, which spares TLC the enumeration of the operations there)
+Next == Put \/ Del \/ Ins \/ Rem \/ Pop \/ Up \/ Down \/ Enable \/ Walk \/ Verify \/ Probes
 
 Spec == Init /\ [][Next]_vars
 
@@ -284,7 +284,7 @@ TypeOK ==
   /\ (Tied => (\A e \in src : Fits(e[1], e[2])) /\ (\A e \in idx : Fits(e[2], e[1])))
 
 \* the outcome of every operation in every state reached with fewer than MaxOps steps
-Inv_Outcomes == (leaf = <<>> /\ nops < MaxOps) => \A op \in Ops : Allowed(Cur, op) => \A r \in {Apply(Cur, op, Atomic)} : OutcomeOK(Cur, op, r)
+Inv_Outcomes == (leaf = <<>> /\ nops < MaxOps) => \A S \in {Cur} : \A op \in Ops : Allowed(S, op) => \A r \in {Apply(S, op, Atomic)} : OutcomeOK(S, op, r)
 Inv_Verify   == leaf = <<>> => C_Verify(Cur)
 
 \* Populate establishes and the writers that maintain the index preserve: nothing is missing (lvl >= 1); with cleanup the
